@@ -6,10 +6,9 @@
    the program-reading paths (listing, saving, editing, memory access, merging, line entry); the values of
    variables and user functions the program itself defined are variable contents and are out of scope.
 
-   Two statements are NOT guarded by the code and disclose program bytes from direct mode (known findings
-   K16a / K16b): READ (DATA items) and RENUM (the "Undefined line" message).  The full statement is kept as
-   C16_no_disclosure_statement; it is proved for every other statement (C16_no_disclosure) and the two
-   exceptions are proved to be real, as a function of the regenerated table (C16_known_read, C16_known_renum). *)
+   READ (DATA items) and RENUM ("Undefined line" message) used to be unguarded (defects D16a / D16b, fixed by
+   fixes/D16a.patch, fixes/D16b.patch); on a tree without those guards the regenerated table makes the proof of
+   C16_no_disclosure fail and the harness reports the witnesses. *)
 From Coq Require Import ZArith List Bool String.
 From PCB Require Import lib.Result lib.PyInt gen.Gen_guard model.Guard proofs.Guard_proofs.
 Import ListNotations.
@@ -37,58 +36,33 @@ Theorem C16_flag_cleared_only : forall s e,
 Proof. exact flag_cleared_only. Qed.
 Print Assumptions C16_flag_cleared_only.
 
-(* --- no disclosure.  Full statement of the property on the model: *)
-Definition C16_no_disclosure_statement : Prop :=
-  forall s o, protected s = true -> run_mode s = false ->
-  ob (step s o) = NoObs \/ (o = OSave SP /\ ob (step s o) = cipher (prog s)).
-
-(* proved for every statement except READ and RENUM *)
-Theorem C16_no_disclosure_partial : forall s o,
-  protected s = true -> run_mode s = false -> excluded o = false ->
+(* --- no disclosure, FULL statement: while the flag is set, no statement typed at the prompt exposes plain
+   program text; the only observation at all is the cipher text of SAVE ,P *)
+Theorem C16_no_disclosure : forall s o,
+  protected s = true -> run_mode s = false ->
   ob (step s o) = NoObs \/ (o = OSave SP /\ ob (step s o) = cipher (prog s)).
 Proof. exact no_plain. Qed.
-Print Assumptions C16_no_disclosure_partial.
+Print Assumptions C16_no_disclosure.
 
 (* LIST, LLIST, EDIT, the syntax-error prompt, SAVE (A and B), PEEK, BSAVE, POKE, BLOAD, line entry, AUTO line
-   entry, MERGE and CHAIN MERGE fail with Illegal function call, expose nothing and change nothing *)
-Theorem C16_no_disclosure : forall s o,
+   entry, MERGE, CHAIN MERGE, READ and RENUM fail with Illegal function call, expose nothing, change nothing *)
+Theorem C16_refused : forall s o,
   protected s = true -> run_mode s = false -> must_fail s o = true ->
   step s o = (s, Err guard_err, NoObs).
 Proof. exact refused. Qed.
-Print Assumptions C16_no_disclosure.
+Print Assumptions C16_refused.
 
-(* along every history in which the program does not unprotect itself, no typed command (other than the two
-   known ones) shows plain text of a program loaded from a protected file *)
+(* along every history in which the program does not unprotect itself, no typed command shows plain text of a
+   program loaded from a protected file *)
 Theorem C16_trace_no_disclosure : forall es s e,
   inv s -> allow_protect s = true ->
   forallb (fun e => negb (self_unprotect e)) es = true ->
   let s' := run_events s es in
   secret s' = true ->
-  forall o, e = Direct o -> excluded o = false ->
+  forall o, e = Direct o ->
   match ob (estep s' e) with Plain _ => False | _ => True end.
 Proof. exact trace_no_disclosure. Qed.
 Print Assumptions C16_trace_no_disclosure.
-
-(* the two exceptions are real while the code has no guard there, and disappear with a guard of the PEEK kind *)
-Theorem C16_known_read : g_read = GNone ->
-  exists s, protected s = true /\ run_mode s = false /\ secret s = true /\ inv s /\
-            ob (step s ORead) = Plain [2].
-Proof. exact read_discloses_if_unguarded. Qed.
-Print Assumptions C16_known_read.
-
-Theorem C16_known_renum : g_renum = GNone -> g_cb_renum = GNone ->
-  exists s, protected s = true /\ run_mode s = false /\ secret s = true /\ inv s /\
-            ob (step s ORenum) = Plain [3].
-Proof. exact renum_discloses_if_unguarded. Qed.
-Print Assumptions C16_known_renum.
-
-Theorem C16_known_fixable : forall s, protected s = true -> run_mode s = false ->
-  ((g_read = GProt \/ g_read = GProtNotRun) -> step s ORead = (s, Err guard_err, NoObs)) /\
-  ((g_renum = GProt \/ g_renum = GProtNotRun) -> step s ORenum = (s, Err guard_err, NoObs)).
-Proof.
-  intros s Hp Hr. split; intro H; [exact (read_safe_if_guarded s H Hp Hr) | exact (renum_safe_if_guarded s H Hp Hr)].
-Qed.
-Print Assumptions C16_known_fixable.
 
 (* --- SAVE ,P still works (whatever the flag) and writes only through the cipher of C15 *)
 Theorem C16_save_p_ok : forall s, step s (OSave SP) = (s, Ok 0, cipher (prog s)).
@@ -122,7 +96,9 @@ Print Assumptions C16_census.
 Example C16_nonvacuous :
   let s := st (estep (init true) (Direct (OLoad (FProt secret_code)))) in
   inv s /\ protected s = true /\ run_mode s = false /\ secret s = true /\ allow_protect s = true /\
-  must_fail s OList = true /\ must_fail s (OEdit 4) = true /\
+  must_fail s OList = true /\ must_fail s (OEdit 4) = true /\ must_fail s ORead = true /\
+  step s ORead = (s, Err 5, NoObs) /\ step s ORenum = (s, Err 5, NoObs) /\
+  rs_ (step (set_run s true) ORead) = Ok 0 /\
   step s OList = (s, Err 5, NoObs) /\
   ob (step s (OSave SP)) = Cipher secret_code /\
   ob (step (st (estep (init true) (Direct (OLoad (FPlain secret_code))))) OList) = Plain secret_code /\
